@@ -5,7 +5,7 @@ format_match/complete, ALL_FORMATS, detect_file_format).
 A case is
   {'op':'wrap', 'd':<data spec>, 'kind':'f'|'i'|'g', 'exp':None|name, 'allowed':None|[names], 'oseed':int,
    'lens':[chunk lengths of an iterator source], 'ops':[...], 'k':label}
-     ops: 0 next(), 1 close(), 9 read(-1), 10+n read(n); after EVERY op the observation is
+     ops: 0 next(), 1 close(), 9 read(-1), 10+n read(n), 2 = from here on the reader stops at the first exception (only close is still done); after EVERY op the observation is
        <B<len>.<cksum> | E<Class> | N>@<source position>|<formats>|<format>|name:complete:format_match,...
   {'op':'detect', 'd':<data spec>, 'k':label}        detect_file_format(path of a file with that content)
 Data specs are reproducible from the case alone (seeds inside):
@@ -175,7 +175,11 @@ def run_wrap(c):
     w = fi.InspectWrapper(src, expected_format=c.get('exp'), allowed_formats=c.get('allowed'))
     reorder(fi, w, c.get('oseed', 0))
     recs = [state(w)]
+    stopping = stopped = False
     for op in c['ops']:
+        if op == 2:
+            stopping = True; continue
+        if stopping and stopped and op != 1: continue
         try:
             if op == 1:
                 w.close(); out = 'N'
@@ -184,7 +188,7 @@ def run_wrap(c):
             else:
                 r = w.read(-1 if op == 9 else op - 10); out = 'B%d.%d' % (len(r), ck(r))
         except Exception as e:
-            out = 'E' + canon(e)
+            out = 'E' + canon(e); stopped = True
         recs.append('%s@%d|%s' % (out, src.where(), state(w)))
     return ';'.join(recs)
 
@@ -256,11 +260,11 @@ def parse(io_):
         recs.append((out, pos, f[0], f[1], per))
     return recs
 
-def delivered_bytes(c, recs):
+def delivered_bytes(c, recs, ex=None):
     """the content the reader obtained (None when a call raised: the stream was not read through)"""
     data = data_of(c['d'])
     total = 0
-    for (out, pos, fs, fm, per), op in zip(recs[1:], c['ops']):
+    for (out, pos, fs, fm, per), op in zip(recs[1:], ex if ex is not None else c['ops']):
         if out.startswith('E'):
             if out == 'EStopIteration' and op == 0: continue       # end of an iterator
             return None
@@ -305,23 +309,43 @@ def oracle(c, io_):
         m = check_answer('after call %d' % i, fs, fm, allowed)
         if m: return m
     # (b) a decision reported after some read is not revised by reading further, nor by close()
+    ex = executed_ops(c, recs)
     decided = None
     for i, (out, pos, fs, fm, per) in enumerate(recs):
         if decided is not None and fm != decided[1]:
             return 'decision revised: format was %s after call %d and is %s after call %d' % (decided[1], decided[0], fm, i)
-        if decided is None and fm not in ('None',) and not fm.startswith('EXN:') and not closed_at(c, i):
+        if decided is None and fm not in ('None',) and not fm.startswith('EXN:') and not closed_at(c, i, ex):
             decided = (i, fm)
+    # (c') a reader that stops at the first exception (expected-format abort, ...) and closes: a specific format
+    #      reported then has its signature in the bytes TAKEN from the source (file sources: the position)
+    if c['ops'] and c['ops'][0] == 2 and c['kind'] == 'f' and c['ops'][-1] == 1:
+        last = recs[-1]
+        taken = data_of(c['d'])[:int(last[1])]
+        for (out, pos, fs, fm, per) in recs[-2:]:
+            if fm in NONRAW and imgbuild.signature_present(fm, taken) is False:
+                return '%s reported after a stopped run but its signature is not in the %d bytes taken from the source' % (fm, len(taken))
     # (c) after the stream has been read through and closed
-    if c['ops'] and c['ops'][-1] == 1 and c['ops'].count(1) == 1:
-        content = delivered_bytes(c, recs)
+    if ex and ex[-1] == 1 and ex.count(1) == 1:
+        content = delivered_bytes(c, recs, ex)
         if content is not None:
             out, pos, fs, fm, per = recs[-1]
             return check_content(fm, fs, content, allowed, 'after close()')
     return None
 
-def closed_at(c, i):
+def executed_ops(c, recs):
+    """the ops that produced the observations recs[1:] (op 2 and the ops skipped by a stopping reader removed)"""
+    out = []; stopping = stopped = False; k = 1
+    for op in c['ops']:
+        if op == 2: stopping = True; continue
+        if stopping and stopped and op != 1: continue
+        out.append(op)
+        if k < len(recs) and recs[k][0].startswith('E'): stopped = True
+        k += 1
+    return out
+
+def closed_at(c, i, ex=None):
     """observation i (0 = fresh wrapper) was taken after a close()"""
-    return 1 in c['ops'][:i]
+    return 1 in (ex if ex is not None else c['ops'])[:i]
 
 def check_content(fm, fs, content, allowed, where):
     considered = [f for f in NONRAW if not allowed or f in allowed]
@@ -398,6 +422,7 @@ def mk_case(rng, d, n, label, style=None, allowed='?', exp='?', kind=None, stop_
         c['ops'] = [0] * (len(c['lens']) + 1) + [1]
         if rng.random() < 0.15: c['ops'] = c['ops'][:-2] + [1]          # closed before the iterator is exhausted
     if rng.random() < 0.06: c['ops'] = c['ops'] + [c['ops'][0]]         # a call after close()
+    elif exp is not None and rng.random() < 0.5: c['ops'] = [2] + c['ops']    # a reader that stops at the first exception
     return c
 
 def overlay_specs(rng, tier):
@@ -511,7 +536,8 @@ def classify(c, io_):
         return 'detect:' + (res if res.startswith('EXN') or res in ('None', 'raw') else 'specific')
     recs = parse(io_)
     fm = recs[-1][3]
-    early = any(r[3] not in ('None',) and not r[3].startswith('EXN') and not closed_at(c, i) for i, r in enumerate(recs))
+    ex = executed_ops(c, recs)
+    early = any(r[3] not in ('None',) and not r[3].startswith('EXN') and not closed_at(c, i, ex) for i, r in enumerate(recs))
     return 'wrap:%s:%s:%s%s' % (c['kind'], 'exp' if c.get('exp') else 'noexp',
                                 fm if fm.startswith('EXN') or fm in ('None', 'raw') else 'specific', ':early' if early else '')
 
